@@ -220,3 +220,122 @@ Example C09_fixed_witness :
   doc_comments (fmtd O 80 e 0) = ["// c"] /\
   render (fmtd O 80 e 0) = ("-[" ++ nl ++ "  // c" ++ nl ++ "  a," ++ nl ++ "]")%string.
 Proof. vm_compute. split; reflexivity. Qed.
+
+(* ======================================================================================================
+   PARSER HALF (coq/PegComments.v): from the pair tree of the PEG model (coq/Peg.v on gen/Grammar.v) through the
+   drivers' statement loop and pairs_to_expr_with_comments to the commented program the formatter half is about.
+   Hypotheses: forest_view_ok (the item view reads every comment pair of the tree) and forest_shape_ok (one
+   return_statement, last, per do_block; no line feed inside a comment text; a comment-only do_statement has no
+   second comment) are decidable grammar-shape facts, TESTED on every tree the interpreter produces by the C09P
+   correspondence stream (not proved of the interpreter); forest_no_empty_container is the EXCLUSION = known
+   finding C09-empty-container. *)
+Require Import Blots.Outcome Blots.Peg Blots.gen.Grammar Blots.PegToItems Blots.PegComments
+  Blots.proofs.PegComments Blots.proofs.PegCommentsCompose.
+
+(* pairs_to_expr_with_comments keeps every comment of its token stream, in order *)
+Theorem C09_glue_keeps_comments : forall its t,
+  shapes_ok its = true -> no_empty_containers its = true ->
+  pratt_c its = Outcome.Ok (Some t) -> expr_comments t = items_comments its.
+Proof. exact pratt_c_keeps_comments. Qed.
+Check C09_glue_keeps_comments : forall its t,
+  shapes_ok its = true -> no_empty_containers its = true ->
+  pratt_c its = Outcome.Ok (Some t) -> expr_comments t = items_comments its.
+Print Assumptions C09_glue_keeps_comments.
+
+(* (a) the texts of the comment / eol_comment pairs of the tree, in tree order = the comments of the commented
+   program the drivers hand to the formatter *)
+Theorem C09_parse_keeps_comments : forall text forest p,
+  forest_view_ok text forest = true ->
+  forest_shape_ok text forest = true ->
+  forest_no_empty_container text forest = true ->
+  program_of_forest text forest = Outcome.Ok (Some p) ->
+  program_comments p = forest_comments text forest.
+Proof. exact parse_keeps_comments. Qed.
+Check C09_parse_keeps_comments : forall text forest p,
+  forest_view_ok text forest = true ->
+  forest_shape_ok text forest = true ->
+  forest_no_empty_container text forest = true ->
+  program_of_forest text forest = Outcome.Ok (Some p) ->
+  program_comments p = forest_comments text forest.
+Print Assumptions C09_parse_keeps_comments.
+
+(* the exclusion is necessary (finding C09-empty-container): `[ // c <LF> ]` satisfies the two shape hypotheses,
+   its tree has the pair "// c", the program built from it has no comment *)
+Lemma C09_parse_keeps_comments_refuted :
+  exists forest p,
+    parse_program_c empty_container_witness = PCOk forest p
+    /\ forest_view_ok empty_container_witness forest = true
+    /\ forest_shape_ok empty_container_witness forest = true
+    /\ forest_no_empty_container empty_container_witness forest = false
+    /\ forest_comments empty_container_witness forest = ["// c"]
+    /\ program_comments p = [].
+Proof. exact parse_keeps_comments_refuted. Qed.
+
+(* (b) end to end, token tree -> emitted text, both drivers: a lexer-level scan of the formatted text finds exactly
+   the comment pairs of the tree, in order *)
+Theorem C09_tree_to_text_lib :
+  forall O key_ok, (forall k, key_ok k = true -> neutral (o_record_key O k)) ->
+  forall text forest p mw d,
+  forest_view_ok text forest = true -> forest_shape_ok text forest = true ->
+  forest_no_empty_container text forest = true ->
+  program_of_forest text forest = Outcome.Ok (Some p) ->
+  Forall (stmt_ok O key_ok mw) p -> format_lib O mw p = Some d ->
+  scan_comments (render d) = forest_comments text forest.
+Proof. exact tree_to_text_lib. Qed.
+Check C09_tree_to_text_lib :
+  forall O key_ok, (forall k, key_ok k = true -> neutral (o_record_key O k)) ->
+  forall text forest p mw d,
+  forest_view_ok text forest = true -> forest_shape_ok text forest = true ->
+  forest_no_empty_container text forest = true ->
+  program_of_forest text forest = Outcome.Ok (Some p) ->
+  Forall (stmt_ok O key_ok mw) p -> format_lib O mw p = Some d ->
+  scan_comments (render d) = forest_comments text forest.
+Print Assumptions C09_tree_to_text_lib.
+
+Theorem C09_tree_to_text_cli :
+  forall O key_ok, (forall k, key_ok k = true -> neutral (o_record_key O k)) ->
+  forall text forest p,
+  forest_view_ok text forest = true -> forest_shape_ok text forest = true ->
+  forest_no_empty_container text forest = true ->
+  program_of_forest text forest = Outcome.Ok (Some p) ->
+  Forall (stmt_ok O key_ok None) p ->
+  scan_comments (render (format_cli O p)) = forest_comments text forest.
+Proof. exact tree_to_text_cli. Qed.
+Check C09_tree_to_text_cli :
+  forall O key_ok, (forall k, key_ok k = true -> neutral (o_record_key O k)) ->
+  forall text forest p,
+  forest_view_ok text forest = true -> forest_shape_ok text forest = true ->
+  forest_no_empty_container text forest = true ->
+  program_of_forest text forest = Outcome.Ok (Some p) ->
+  Forall (stmt_ok O key_ok None) p ->
+  scan_comments (render (format_cli O p)) = forest_comments text forest.
+Print Assumptions C09_tree_to_text_cli.
+
+(* (c) F20 at the grammar level, on the regenerated grammar (exhaustive over its rule table): NEWLINE,
+   inline_comment, plain_newline are silent and call only each other, and inline_comment is referenced by NEWLINE
+   only — a "//" run read through NEWLINE can produce no pair; `comment` / `eol_comment` are the only other readers *)
+Theorem C09_newline_rules_silent_and_closed :
+  forallb (fun r => is_silent r &&
+                    forallb (fun x => existsb (grule_eqb x) newline_closure) (expr_idents (rd_body (grule_def r))))
+          newline_closure = true.
+Proof. exact newline_rules_silent_and_closed. Qed.
+Check C09_newline_rules_silent_and_closed :
+  forallb (fun r => is_silent r &&
+                    forallb (fun x => existsb (grule_eqb x) newline_closure) (expr_idents (rd_body (grule_def r))))
+          newline_closure = true.
+Print Assumptions C09_newline_rules_silent_and_closed.
+Theorem C09_inline_comment_only_in_NEWLINE :
+  filter (fun r => mentions PG_inline_comment (rd_body (grule_def r))) all_grules = [PG_NEWLINE].
+Proof. exact inline_comment_only_in_NEWLINE. Qed.
+Check C09_inline_comment_only_in_NEWLINE :
+  filter (fun r => mentions PG_inline_comment (rd_body (grule_def r))) all_grules = [PG_NEWLINE].
+Print Assumptions C09_inline_comment_only_in_NEWLINE.
+(* kept, not proved: the interpreter-level consequence for every grammar (quiet rules emit no pairs) *)
+Definition C09_quiet_rules_emit_no_pairs_full : Prop := quiet_rules_emit_no_pairs_full.
+(* F20 witness through the interpreter (6 bytes), and the contrasting text where the same "//" is a pair *)
+Lemma C09_f20_witness_swallowed :
+  scan_comments f20_witness = ["//"]
+  /\ exists forest p, parse_program_c f20_witness = PCOk forest p
+                      /\ forest_comments f20_witness forest = []
+                      /\ program_comments p = [].
+Proof. exact f20_witness_swallowed. Qed.
